@@ -77,6 +77,7 @@ func propC18Watcher(t veriflib.TB, outer *testing.T, c c18wCase) {
 	// C03: a stop that does not return).
 	veriflib.WatchStart(90 * time.Second)
 	veriflib.WatchAlso("C03", "C03/watcher-stop")
+	veriflib.WatchAlso("C14", "C14/watcher-stop") // "... and shutdown can leave a caller ... blocked forever": the caller of StopDiskWatcher
 	defer veriflib.WatchCase("C18", facet, c)()
 	var hist []string
 	viol := ""
@@ -195,6 +196,7 @@ func propC18Watcher(t veriflib.TB, outer *testing.T, c c18wCase) {
 			// cannot leave the bubble with the watcher stuck: report and give up on this process. A stop that does not
 			// return is also what C03 rules out (the disk watcher is the first thing stopPipeline() stops).
 			veriflib.WriteFailure("C03", "C03/watcher-stop", c, hist, viol)
+			veriflib.WriteFailure("C14", "C14/watcher-stop", c, hist, viol)
 			veriflib.WriteFailure("C18", facet, c, hist, viol)
 			veriflib.Flush()
 			fmt.Fprintln(os.Stderr, "C18/watcher:", viol)
@@ -216,15 +218,17 @@ func propC18Watcher(t veriflib.TB, outer *testing.T, c c18wCase) {
 	}
 	veriflib.Record(facet, veriflib.JSON(c), transitions >= 2, cl, func() any { return map[string]any{"case": c, "history": hist} })
 	// the same run is evidence for C03: the stop of the disk watcher returned, also while its own pause was in force
-	veriflib.Record("C03/watcher-stop", veriflib.JSON(c), stoppedPaused, []string{fmt.Sprintf("stopped-while-paused-by-the-watcher:%v", stoppedPaused)}, func() any {
-		return map[string]any{"case": c, "history": hist}
-	})
+	for _, f := range []string{"C03/watcher-stop", "C14/watcher-stop"} {
+		veriflib.Record(f, veriflib.JSON(c), stoppedPaused, []string{fmt.Sprintf("stopped-while-paused-by-the-watcher:%v", stoppedPaused)}, func() any {
+			return map[string]any{"case": c, "history": hist}
+		})
+	}
 }
 
 func TestVerif_C18_Watcher(t *testing.T) {
 	defer veriflib.Flush()
 	var rc c18wCase
-	if veriflib.ReplayCase("C18/watcher", &rc) || veriflib.ReplayCase("C03/watcher-stop", &rc) {
+	if veriflib.ReplayCase("C18/watcher", &rc) || veriflib.ReplayCase("C03/watcher-stop", &rc) || veriflib.ReplayCase("C14/watcher-stop", &rc) {
 		propC18Watcher(t, t, rc)
 		return
 	} else if veriflib.Replaying() {
